@@ -92,6 +92,8 @@ func inlinePkgs(p *Program, pkgs ...string) func(*ssa.Function, int) bool {
 func rulesC10(c *Ctx) {
 	c10Apply(c)
 	c10Builders(c)
+	buildersStore(c, "fallback")
+	delegatingBuilders(c, "fallback")
 	c.Rule("classification")
 	c01PostExecute(c)
 	c01Verdict(c)
@@ -335,6 +337,8 @@ func rulesC11(c *Ctx) {
 	c.Rule("fresh-executor")
 	c01Self(c)
 	c12AnyOf(c)
+	buildersStore(c, "cachepolicy")
+	delegatingBuilders(c, "cachepolicy")
 }
 
 // cacheKeyTerm describes, under facts F, which key getCacheKey yields: "ctx" (the context value), "cfg"
@@ -604,6 +608,8 @@ func rulesC06(c *Ctx) {
 	c06ChannelOwner(c)
 	c06Acquire(c)
 	c06Pairing(c)
+	buildersStore(c, "bulkhead")
+	delegatingBuilders(c, "bulkhead")
 	ruleFailureResult(c)
 	c.Rule("fresh-executor")
 	c01Self(c)
